@@ -62,7 +62,7 @@ def random_sequence(rng, cap, pol, length, allow_stop=True, occ=0):
         if k < 0.62:
             if st.would_block() and st.blocked >= 1:
                 ops.append('T'); st.take(); continue
-            ops.append(s.sub(rng.choice('eeww'), rng.randrange(3)))
+            ops.append(s.sub(rng.choice('eeeewwwz'), rng.randrange(3)))     # events, raw writes, zero-length raw writes
             st.submit()
         elif k < 0.68:
             ops.append(s.sub(rng.choice('du'), rng.randrange(3)))     # not enabled: below / at-or-above the logger's range
@@ -80,3 +80,13 @@ def exhaustive(alphabet_len):
     for L in range(0, alphabet_len + 1):
         for t in itertools.product('ewT', repeat=L):
             yield t
+
+
+def variant(rng):
+    """policy suffix: +L = logger-level layout and a lower-bounded reference, +U = the logger's range has an upper bound"""
+    return rng.choice(['', '', '+L', '+U', '+L+U'])
+
+
+def adapt(ops, suffix):
+    """events at or above an upper bound (kind u) only exist when the logger's range has one"""
+    return ops if '+U' in suffix else [('d' + o[1:]) if o[0] == 'u' else o for o in ops]
